@@ -21,7 +21,6 @@ import (
 
 	"cosmossdk.io/store/prefix"
 	"github.com/cosmos/cosmos-sdk/runtime"
-	"github.com/cosmos/cosmos-sdk/types/query"
 
 	"github.com/circlefin/noble-cctp/x/cctp/types"
 	sdk "github.com/cosmos/cosmos-sdk/types"
@@ -54,7 +53,7 @@ func (k Keeper) TokenPairs(c context.Context, req *types.QueryAllTokenPairsReque
 	adapter := runtime.KVStoreAdapter(k.storeService.OpenKVStore(ctx))
 	TokenPairsStore := prefix.NewStore(adapter, types.KeyPrefix(types.TokenPairKeyPrefix))
 
-	pageRes, err := query.Paginate(TokenPairsStore, req.Pagination, func(key []byte, value []byte) error {
+	pageRes, err := paginate(TokenPairsStore, req.Pagination, func(key []byte, value []byte) error {
 		var tokenPair types.TokenPair
 		if err := k.cdc.Unmarshal(value, &tokenPair); err != nil {
 			return err
